@@ -250,12 +250,14 @@ CLAIMED["C01"] = (
     "adapter modules, itself compared on every run with the real JSON documents and the really loaded objects (model save vs "
     "real document, model load of the real document vs real load) inside coqc, plus a fail-closed inventory of declared "
     "fields. The pinned tree's three defective rows are refuted by witness in Coq and were repaired in /repo.",
-    "Trusted: Coq kernel/vm_compute; the schema table in harness/aoef.py (correspondence-checked); scalar codecs (JSON text, "
+    "Trusted: Coq kernel/vm_compute; the schema table in harness/aoef.py and the translator harness/aoef_extract.py (each "
+    "checked against the other and against the real documents); scalar codecs (JSON text, "
     "float repr, timestamps, geometry JSON) are interned tokens, observed by the oracle, not modelled; inline objects modelled "
     "as pseudo-tables; ADAPTERS order and the collection_type discriminator are checked by the inventory and the oracle, not "
     "by a theorem.",
-    "Rocq/Coq proof (generic schema-driven model, nested induction) + model/implementation correspondence by vm_compute",
-    "DESIGN.md section 6, C01",
+    "Rocq/Coq proof (generic schema-driven model, nested induction); schema rows regenerated from the adapter sources by an "
+    "ast translator on every run + model/implementation correspondence by vm_compute",
+    "DESIGN.md section 6, C01 and section 10.3",
 )
 
 CLAIMED["C02"] = (
@@ -267,8 +269,9 @@ CLAIMED["C02"] = (
     "The pinned tree's PredictionSet / EvaluationSet rows are refuted by witness (dangling identifier) and were repaired.",
     "Trusted: Coq kernel/vm_compute; the schema table and the JSON-to-skeleton reader of harness/aoef.py; dense tag ids "
     "(0..n-1) are positions in the model and checked on the real document by the oracle only.",
-    "Rocq/Coq proof + proved-sound audit of real documents + model/implementation correspondence by vm_compute",
-    "DESIGN.md section 6, C02",
+    "Rocq/Coq proof + proved-sound audit of real documents; schema rows regenerated from the adapter sources by an ast "
+    "translator on every run + model/implementation correspondence by vm_compute",
+    "DESIGN.md section 6, C02 and section 10.3",
 )
 
 CLAIMED["C18"] = (
